@@ -30,6 +30,10 @@ def run(tier, seed):
     rp = {"Times": "{0, 1}", "MaxCycles": 2, "Replay": "TRUE", "EnforceChoices": "{TRUE}", "Reads": "FALSE", "MaxReads": 0}
     mcs.append(("MC_Freeze", "MC_Freeze_check.cfg", {"MaxCycles": 2, "Replay": "TRUE"}, "c04-replaymc"))
     gens.append(("MC_Freeze", "MC_Freeze_check.cfg", rp, "c04-replay", {}))
+    # enforcement switched off in the second cycle, after an enforcing one recorded the time, the clock going back:
+    # nothing may fail for reasons of time (a sample of the 57 k histories)
+    us = dict(rp, EnforceChoices="{TRUE, FALSE}")
+    gens.append(("MC_Freeze", "MC_Freeze_check.cfg", us, "c04-unsafe2", {"every": 23 if tier == "quick" else 5}))
     # reads after the load: four independent expirations, the clock moving between load and read
     gens.append(("MC_FreezeRead", "MC_FreezeRead_check.cfg", {}, "c04-read", {"every": 2 if tier == "quick" else 1}))
     v, cov, a, _ = clientlib.run_plan(PID, tier, seed, mcs, gens, FIELDS, nontrivial,
